@@ -125,8 +125,8 @@ def build_model():
     sh("rm -f *.cmi *.cmx *.o *.cmo", cwd=d)
     for s in srcs[1:]:
         sh(["cp", s, d], check=True)
-    mls = "util.ml " + " ".join(os.path.basename(s) for s in srcs[1:]
-                                if os.path.basename(s) not in ("util.ml", "driver.ml")) + " driver.ml"
+    rc, order = sh("ocamlfind ocamldep -sort model.ml " + " ".join(os.path.basename(x) for x in srcs[1:]), cwd=d)
+    mls = " ".join(f for f in order.split() if f not in ("model.ml", "model.mli"))
     rc, out3 = sh("timeout 600 ocamlfind ocamlopt -w -a -package str -linkpkg model.mli model.ml %s -o driver.new && mv driver.new driver" % mls,
                   cwd=d, timeout=700)
     return rc, out + out3
@@ -335,7 +335,16 @@ def run_stream(name, mode, cases, nontrivial, hook=False, exhaustive=False, boun
     sr.bounds = bounds
     hbin = H_BIN_HOOK if hook else H_BIN
     t0 = time.time()
-    if feed_impl:
+    if mode in CHECKER_MODES:
+        raw = run_lines(hbin, mode, cases)
+        model = run_lines(DRIVER, mode, [c + "\t" + a for c, a in zip(cases, raw)])
+        impl = list(model)
+        sr.raw = raw
+    elif mode in FEED_MODEL_MODES:
+        # the implementation run is given the model's prediction (used only to choose wait times)
+        model = run_lines(DRIVER, mode, cases)
+        impl = run_lines(hbin, mode, [c + "\t" + m for c, m in zip(cases, model)])
+    elif feed_impl:
         # the model run is given the implementation's observation (sort oracle answers)
         impl = run_lines(hbin, mode, cases)
         model = run_lines(DRIVER, mode, [c + "\t" + a for c, a in zip(cases, impl)])
@@ -379,9 +388,21 @@ def load_known():
 
 
 FEED_IMPL_MODES = {"adapt"}
+FEED_MODEL_MODES = {"conc"}
+# modes where the model side is a checker of the (non-deterministic) implementation observation:
+# its verdict line replaces the implementation line for the oracle evaluation
+CHECKER_MODES = {"lin"}
 
 
 def run_one(mode, case, hook=False):
+    if mode in CHECKER_MODES:
+        a = run_lines(H_BIN_HOOK if hook else H_BIN, mode, [case])[0]
+        b = run_lines(DRIVER, mode, [case + "\t" + a])[0]
+        return b + "   <= " + a, b
+    if mode in FEED_MODEL_MODES:
+        b = run_lines(DRIVER, mode, [case])[0]
+        a = run_lines(H_BIN_HOOK if hook else H_BIN, mode, [case + "\t" + b])[0]
+        return a, b
     a = run_lines(H_BIN_HOOK if hook else H_BIN, mode, [case])[0]
     b = run_lines(DRIVER, mode, [case + "\t" + a if mode in FEED_IMPL_MODES else case])[0]
     return a, b
